@@ -2024,6 +2024,21 @@ func (mgr *Manager) converterOutputDropped() {
 	mgr.startTaggingJobIfNeeded()
 }
 
+// converterOutputAdded marks the streams as undecided for all tags that search stream data,
+// must be called from within the mgr goroutine.
+func (mgr *Manager) converterOutputAdded(streams bitmask.LongBitmask) {
+	for _, tag := range mgr.tags {
+		// TODO: Only tag again if the tag matches converted data
+		if tag.features.MainFeatures&query.FeatureFilterData == 0 && tag.features.SubQueryFeatures&query.FeatureFilterData == 0 {
+			continue
+		}
+		tag.Uncertain = tag.Uncertain.OrCopy(streams)
+	}
+	mgr.updatedStreamsDuringTaggingJob.Or(streams)
+	mgr.inheritTagUncertainty()
+	mgr.startTaggingJobIfNeeded()
+}
+
 func (mgr *Manager) ResetConverter(converterName string) error {
 	c := make(chan error)
 	mgr.jobs <- func() {
@@ -2699,6 +2714,10 @@ func (c StreamContext) Data(converterName string) ([]index.Data, error) {
 				c.v.mgr.invalidateConverters(&changedStreams)
 				c.v.mgr.startConverterJobIfNeeded()
 			}
+			// a tag with a data filter could match on the converted data now
+			converted := bitmask.LongBitmask{}
+			converted.Set(uint(streamID))
+			c.v.mgr.converterOutputAdded(converted)
 			converter, ok := c.v.mgr.converters[converterName]
 			if ok {
 				c.v.mgr.event(Event{
